@@ -326,3 +326,29 @@ Proof.
   rewrite !adjust_opt_ok in H by assumption. cbn [bindo] in H.
   inversion H. unfold with_path. fold pe ps s0. rewrite nlen_app, Ls0. rewrite <- app_assoc. reflexivity.
 Qed.
+
+(* ---------- sessions that only push / extend on a path longer than "/" meet the side condition ---------- *)
+Definition push_only (o : psm_op) : bool := match o with PPush _ | PExtend _ => true | _ => false end.
+
+Lemma push_text_fpi P seg : fpi_b P = true -> fpi_b (push_text STFile P seg) = true.
+Proof.
+  intros H. unfold push_text. destruct (seg_skipped (strip_tnl seg)); [exact H|].
+  destruct (fpi_b_inv P H) as (c & r & -> & Hc).
+  destruct ((1 <? nlen (47 :: c :: r)) || (nlen (47 :: c :: r) =? 0)); cbn [app]; apply fpi_b_intro; exact Hc.
+Qed.
+
+Lemma extend_fpi segs : forall P, fpi_b P = true -> fpi_b (extend_text STFile P segs) = true /\ extend_ok P segs = true.
+Proof.
+  induction segs as [|s r IH]; intros P H; cbn [extend_text fold_left extend_ok]; [split; [exact H | reflexivity]|].
+  destruct (IH (push_text STFile P s) (push_text_fpi P s H)) as [I1 I2]. split; [exact I1|].
+  unfold push_ok. rewrite H, I2. rewrite orb_true_r. reflexivity.
+Qed.
+
+Lemma push_only_session_ok ops : forall P, fpi_b P = true -> forallb push_only ops = true -> file_session_ok P ops = true.
+Proof.
+  induction ops as [|o rest IH]; intros P H Ho; cbn [file_session_ok]; [reflexivity|].
+  cbn [forallb] in Ho. apply andb_true_iff in Ho. destruct Ho as [Ho1 Ho2].
+  destruct o; try discriminate Ho1; cbn [op_ok op_text].
+  - unfold push_ok. rewrite H. rewrite orb_true_r. cbn [orb andb]. apply IH; [apply push_text_fpi; exact H | exact Ho2].
+  - destruct (extend_fpi ss P H) as [I1 I2]. rewrite I2. cbn [andb]. apply IH; [exact I1 | exact Ho2].
+Qed.
